@@ -130,6 +130,7 @@ pub open spec fn tw_wf(w: Mp4TrackWriter) -> bool {
     &&& tw_tables_ok(w, tw_n(w))
     &&& tw_chunks_ok(w)
     &&& tw_headers_ok(w)
+    &&& trak_fw(w.trak)
 }
 
 pub open spec fn stsz_fields_wire_core(b: StszBox) -> bool {
@@ -145,29 +146,39 @@ pub open spec fn tw_with_stbl(a: Mp4TrackWriter, s: StblBox) -> Mp4TrackWriter {
     }
 }
 
-pub open spec fn tw_frame_but_stsz(a: Mp4TrackWriter, b: Mp4TrackWriter) -> bool {
-    b == Mp4TrackWriter { fixed_sample_size: b.fixed_sample_size, is_fixed_sample_size: b.is_fixed_sample_size,
+pub open spec fn tw_frame_but_stsz_core(a: Mp4TrackWriter, b: Mp4TrackWriter) -> bool {
+    &&& b == Mp4TrackWriter { fixed_sample_size: b.fixed_sample_size, is_fixed_sample_size: b.is_fixed_sample_size,
                           ..tw_with_stbl(a, StblBox { stsz: tw_stbl(b).stsz, ..tw_stbl(a) }) }
+    &&& tw_stbl(b).stsz.flags == tw_stbl(a).stsz.flags
+}
+pub open spec fn tw_frame_but_stsz(a: Mp4TrackWriter, b: Mp4TrackWriter) -> bool {
+    &&& tw_frame_but_stsz_core(a, b)
+    &&& (tables_fw(tw_stbl(a)) ==> tables_fw(tw_stbl(b)))
 }
 
 pub open spec fn tw_frame_but_stts(a: Mp4TrackWriter, b: Mp4TrackWriter) -> bool {
-    b == tw_with_stbl(a, StblBox { stts: tw_stbl(b).stts, ..tw_stbl(a) })
+    &&& b == tw_with_stbl(a, StblBox { stts: tw_stbl(b).stts, ..tw_stbl(a) })
+    &&& (tables_fw(tw_stbl(a)) ==> tables_fw(tw_stbl(b)))
 }
 
 pub open spec fn tw_frame_but_ctts(a: Mp4TrackWriter, b: Mp4TrackWriter) -> bool {
-    b == tw_with_stbl(a, StblBox { ctts: tw_stbl(b).ctts, ..tw_stbl(a) })
+    &&& b == tw_with_stbl(a, StblBox { ctts: tw_stbl(b).ctts, ..tw_stbl(a) })
+    &&& (tables_fw(tw_stbl(a)) ==> tables_fw(tw_stbl(b)))
 }
 
 pub open spec fn tw_frame_but_stss(a: Mp4TrackWriter, b: Mp4TrackWriter) -> bool {
-    b == tw_with_stbl(a, StblBox { stss: tw_stbl(b).stss, ..tw_stbl(a) })
+    &&& b == tw_with_stbl(a, StblBox { stss: tw_stbl(b).stss, ..tw_stbl(a) })
+    &&& (tables_fw(tw_stbl(a)) ==> tables_fw(tw_stbl(b)))
 }
 
 pub open spec fn tw_frame_but_stsc(a: Mp4TrackWriter, b: Mp4TrackWriter) -> bool {
-    b == tw_with_stbl(a, StblBox { stsc: tw_stbl(b).stsc, ..tw_stbl(a) })
+    &&& b == tw_with_stbl(a, StblBox { stsc: tw_stbl(b).stsc, ..tw_stbl(a) })
+    &&& (tables_fw(tw_stbl(a)) ==> tables_fw(tw_stbl(b)))
 }
 
 pub open spec fn tw_frame_but_co64(a: Mp4TrackWriter, b: Mp4TrackWriter) -> bool {
-    b == tw_with_stbl(a, StblBox { co64: tw_stbl(b).co64, ..tw_stbl(a) })
+    &&& b == tw_with_stbl(a, StblBox { co64: tw_stbl(b).co64, ..tw_stbl(a) })
+    &&& (tables_fw(tw_stbl(a)) ==> tables_fw(tw_stbl(b)))
 }
 
 /// durations live in mdhd / tkhd (and their version bytes)
@@ -414,6 +425,14 @@ pub open spec fn movie_ticks(d: u64, movie_ts: u32, ts: u32) -> u64 {
     if q > 0xffff_ffff_ffff_ffff { 0xffff_ffff_ffff_ffffu64 } else { q as u64 }
 }
 
+pub proof fn lemma_movie_ticks_zero(mts: u32, ts: u32)
+    requires ts >= 1
+    ensures movie_ticks(0, mts, ts) == 0
+{
+    assert(0int * (mts as int) == 0) by(nonlinear_arith);
+    assert(0int / (ts as int) == 0) by(nonlinear_arith) requires ts >= 1;
+}
+
 /// the chunk map of b is the chunk map of a plus one more chunk holding `cs` samples (a held `flushed` samples), and the
 /// offset table is not touched
 pub open spec fn stsc_adds_chunk(a: StblBox, b: StblBox, cs: int, flushed: int) -> bool {
@@ -475,8 +494,9 @@ pub proof fn lemma_stsc_first_sample_prefix(a: Seq<StscEntry>, b: Seq<StscEntry>
 
 /// what write_chunk may touch besides the chunk tables: the chunk buffer and its counters
 pub open spec fn tw_frame_chunk(a: Mp4TrackWriter, b: Mp4TrackWriter) -> bool {
-    b == Mp4TrackWriter { chunk_samples: b.chunk_samples, chunk_duration: b.chunk_duration, chunk_buffer: b.chunk_buffer,
+    &&& b == Mp4TrackWriter { chunk_samples: b.chunk_samples, chunk_duration: b.chunk_duration, chunk_buffer: b.chunk_buffer,
                           ..tw_with_stbl(a, StblBox { stsc: tw_stbl(b).stsc, co64: tw_stbl(b).co64, ..tw_stbl(a) }) }
+    &&& (tables_fw(tw_stbl(a)) ==> tables_fw(tw_stbl(b)))
 }
 
 /// size of sample k through the view
@@ -552,11 +572,38 @@ pub open spec fn final_offsets(w: Mp4TrackWriter, pos: u64) -> Seq<u64> {
 pub open spec fn offsets_fit_u32(o: Seq<u64>) -> bool { forall|i: int| 0 <= i < o.len() ==> #[trigger] o[i] <= 0xffff_ffff }
 
 // ---- hand-written counterparts of is_default_X for the structs whose Default impl is real code (proved by the impl's contract)
-pub open spec fn is_manual_default_TkhdBox(v: TkhdBox) -> bool { v.version == 0 && v.duration == 0 && v.track_id == 0 && v.flags == 1 }
-pub open spec fn is_manual_default_MdhdBox(v: MdhdBox) -> bool { v.version == 0 && v.flags == 0 && v.duration == 0 && v.timescale == 1000 }
-pub open spec fn is_manual_default_MvhdBox(v: MvhdBox) -> bool { v.version == 0 && v.flags == 0 && v.duration == 0 && v.timescale == 1000 && v.next_track_id == 1 }
+pub open spec fn is_manual_default_TkhdBox(v: TkhdBox) -> bool {
+    v.version == 0 && v.duration == 0 && v.track_id == 0 && v.flags == 1 && v.creation_time == 0 && v.modification_time == 0
+    && v.volume.0.denom == 0x100 && v.width.0.denom == 0x10000 && v.height.0.denom == 0x10000
+}
+pub open spec fn is_manual_default_MdhdBox(v: MdhdBox) -> bool {
+    v.version == 0 && v.flags == 0 && v.duration == 0 && v.timescale == 1000 && v.creation_time == 0 && v.modification_time == 0
+}
+pub open spec fn is_manual_default_MvhdBox(v: MvhdBox) -> bool {
+    v.version == 0 && v.flags == 0 && v.duration == 0 && v.timescale == 1000 && v.next_track_id == 1 && v.creation_time == 0 && v.modification_time == 0
+    && v.rate.0.denom == 0x10000 && v.volume.0.denom == 0x100
+}
+pub open spec fn is_manual_default_UrlBox(v: UrlBox) -> bool { v.version == 0 && v.flags == 1 && v.location@.len() == 0 }
+pub open spec fn is_manual_default_DrefBox(v: DrefBox) -> bool { v.version == 0 && v.flags == 0 && (v.url matches Some(u) && is_manual_default_UrlBox(u)) }
+
+/// the configurations add_track accepts (everything else is rejected with InvalidData, C17)
+pub open spec fn track_config_ok(c: TrackConfig) -> bool {
+    &&& c.timescale != 0
+    &&& (c.media_conf matches MediaConfig::AvcConfig(a) ==> 4 <= a.seq_param_set@.len() <= 0xffff && a.pic_param_set@.len() <= 0xffff)
+    &&& (c.media_conf matches MediaConfig::AacConfig(a) ==> aot_code(a.profile) <= 30)
+}
 
 // ---------------------------------------------------------------- the movie writer
+/// bytes of the track boxes as accumulated so far (write_end adds at most one chunk: 12 bytes of stsc + 8 of co64 per track)
+pub open spec fn tracks_len(v: Seq<Mp4TrackWriter>, n: int) -> int
+    decreases n
+{
+    if n <= 0 { 0 } else { tracks_len(v, n - 1) + trak_len(v[n - 1].trak) + 20 }
+}
+/// domain of write_end (D-20): the movie box fits the 32-bit box size
+pub open spec fn mw_moov_fits<W>(m: Mp4Writer<W>) -> bool {
+    8 + 120 + tracks_len(m.tracks@, m.tracks@.len() as int) <= 0xffff_ffff
+}
 pub open spec fn mw_tracks_ok<W>(m: Mp4Writer<W>) -> bool {
     forall|i: int| 0 <= i < m.tracks@.len() ==> tw_wf(#[trigger] m.tracks@[i]) && m.tracks@[i].trak.tkhd.track_id == i + 1
         && m.tracks@[i].trak.tkhd.duration == movie_ticks(m.tracks@[i].trak.mdia.mdhd.duration, m.timescale, m.tracks@[i].trak.mdia.mdhd.timescale)
